@@ -121,6 +121,58 @@ func (s *side) checkNonce(o *pbt.Outcome, nonce []byte, where string) bool {
 	return true
 }
 
+// nonceLooksPatterned reports whether the nonce matches the side's nonce
+// pattern, for patterns that a random nonce matches with negligible
+// probability only (otherwise false).
+func (s *side) nonceLooksPatterned(nonce []byte) bool {
+	n := s.eff.GetNonce()
+	minLen := int(n.GetMinLen())
+	if int(n.GetMaxLen()) < minLen {
+		minLen = int(n.GetMaxLen())
+	}
+	switch n.GetType() {
+	case pb.NonceType_NONCE_TYPE_PRINTABLE:
+		if minLen < 6 {
+			return false
+		}
+		for i := 0; i < minLen; i++ {
+			if nonce[i] < 0x20 || nonce[i] > 0x7e {
+				return false
+			}
+		}
+		return true
+	case pb.NonceType_NONCE_TYPE_PRINTABLE_SUBSET:
+		if minLen < 4 {
+			return false
+		}
+		for i := 0; i < minLen; i++ {
+			if !strings.ContainsRune(common.Common64Set, rune(nonce[i])) {
+				return false
+			}
+		}
+		return true
+	case pb.NonceType_NONCE_TYPE_FIXED:
+		long := false
+		for _, h := range n.GetCustomHexStrings() {
+			p, _ := hex.DecodeString(h)
+			if len(p) < 2 {
+				return false // some prefix is too short to tell
+			}
+			long = true
+		}
+		if !long {
+			return false
+		}
+		for _, h := range n.GetCustomHexStrings() {
+			p, _ := hex.DecodeString(h)
+			if bytes.HasPrefix(nonce, p) {
+				return true
+			}
+		}
+	}
+	return false
+}
+
 func (s *side) checkData(o *pbt.Outcome, seg *refproto.Segment, fromClient, clientLE bool, where string) bool {
 	m := seg.Meta
 	if !refproto.IsData(m.Proto) {
@@ -219,6 +271,22 @@ func propWire(c WireCase) (o pbt.Outcome) {
 		dg, _ := pn.Snapshot()
 		firstFrom := map[string]bool{}
 		firstTo := map[string]bool{}
+		later, patterned := map[string]int{}, map[string]int{}
+		defer func() {
+			// a random nonce matches a FIXED prefix of >= 2 bytes with probability
+			// <= 2^-16 and is printable in its first >= 6 bytes with probability
+			// < 0.3 %: four or more later datagrams that ALL match mean the pattern
+			// is still being applied
+			for k, n := range later {
+				if o.Violation == "" && n >= 4 && patterned[k] == n {
+					who := "server"
+					if strings.HasPrefix(k, "true/") {
+						who = "client"
+					}
+					o.Failf("nonce/apply-to-first-only", "the %s set applyToAllUDPPacket=false, yet all %d later datagrams of one cipher (%s) still carry the nonce pattern", who, n, k)
+				}
+			}
+		}()
 		for i, d := range e2e.DecodeDatagrams(dg, 7000, e2e.DefaultUsers, tStart, time.Now()) {
 			if d.Seg == nil {
 				continue
@@ -243,6 +311,15 @@ func propWire(c WireCase) (o pbt.Outcome) {
 			}
 			if (first || s.eff.GetNonce().GetApplyToAllUDPPacket()) && !s.checkNonce(&o, d.Seg.Nonce, where) {
 				return
+			}
+			if !first && !s.eff.GetNonce().GetApplyToAllUDPPacket() {
+				// applyToAllUDPPacket=false: later datagrams of the cipher carry an
+				// ordinary random nonce; count how many still look patterned
+				k := fmt.Sprintf("%v/%s", d.FromClient, map[bool]string{true: d.D.From.String(), false: d.D.To.String()}[d.FromClient])
+				later[k]++
+				if s.nonceLooksPatterned(d.Seg.Nonce) {
+					patterned[k]++
+				}
 			}
 		}
 	}
